@@ -30,6 +30,10 @@ def parseOp (j : Json) : JE Op := do
     let pt := J.boolD j "pt" false
     let i ← if pt then pure Ty.any else parseTy (← J.str j "in")
     let o ← if pt then pure Ty.any else parseTy (← J.str j "out")
+    -- WithInputKey / WithOutputKey (C07): the node's declared type on that side is
+    -- map[string]any (c5), whatever the lambda or graph inside takes / returns
+    let i := if J.boolD j "inKey" false then Ty.conc 5 else i
+    let o := if J.boolD j "outKey" false then Ty.conc 5 else o
     pure (.node { key := (← J.str j "key"), passthrough := pt, inTy := i, outTy := o,
                   pre := (← parseHandler j "pre"), post := (← parseHandler j "post"),
                   nodeKeyOpt := J.boolD j "keyOpt" false })
